@@ -116,3 +116,22 @@ Lemma w_hidden_ok :
   /\ b_pending (state_after PCode (b_init t0) w_hidden) = []
   /\ bc_ptr (b_cache (state_after PCode (b_init t0) w_hidden)) = [([95; 102; 111; 114; 101; 105; 103; 110; 46; 95; 116; 99; 112; 46; 108; 111; 99; 97; 108; 46], [])].
 Proof. vm_compute. repeat split; reflexivity. Qed.
+
+(* ---- non-vacuity of the counting bound and of the timer theorems ---- *)
+(* the legitimate history: four needed deliveries (PTR, SRV, TXT, A), each counter meets its bound;
+   the unneeded history: nothing is logged under PNeed, three deliveries under PCode *)
+Lemma w_count_ok :
+  map (fun d => br_ty (snd d)) (deliveries_of PNeed t0 w_legit) = [12; 33; 16; 1]
+  /\ map (fun k => live_count k 1000010 (deliveries_of PNeed t0 (firstn 3 w_legit))) [KPtr; KSrv; KTxt; KAddr; KNsec]
+     = [1; 1; 1; 1; 0]
+  /\ deliveries_of PNeed t0 w_unneeded = []
+  /\ length (deliveries_of PCode t0 w_unneeded) = 3%nat.
+Proof. vm_compute. repeat split; reflexivity. Qed.
+
+(* an idle iteration after the stopped search: only popping, the stale deadline timer stays *)
+Definition w_idle_iter : biter := mkBI 1012000 [] [].
+Lemma w_idle_ok :
+  let s := state_after PCode (b_init t0) w_stale in
+  b_queriers s = [] /\ b_retr s = [] /\ b_ip_interval s = 0 /\ b_timers s = [2000000]
+  /\ b_timers (fst (step PCode s w_idle_iter)) = [2000000].
+Proof. vm_compute. repeat split; reflexivity. Qed.
